@@ -152,18 +152,23 @@ func coopDisclosures(x *scn.Exec, id, h string, fromSeq int) []mc.Violation {
 				if r := decodeRecord(q.Payload); r != nil {
 					prev = stateSuffix(string(r.Previous))
 					le := r.Data.LastErrString + " " + r.Data.CancelMessage
+					// the window cause is established from ground truth (tip at that
+					// moment vs the swap's anchor), not from error texts
+					tip, win := uint64(q.BtcTip), uint64(504)
+					if x.Cfg.Chain != "btc" {
+						tip, win = uint64(q.LbtcTip), 60
+					}
+					start := uint64(r.Data.StartingBlockHeight)
+					windowClosed := start != 0 && (tip >= start+win || tip < start)
 					switch {
 					case strings.Contains(le, "could not pay invoice"):
 						cause = "payment_errors"
-					case strings.Contains(le, "deadline") || strings.Contains(le, "exceeded") || strings.Contains(le, "csv") || strings.Contains(le, "below swap starting"):
-						cause = "window_closed"
 					case prev == "ClaimSwap":
 						cause = "negotiation_timeout"
-					case prev == "ValidateTxAndPayClaimInvoice" || prev == "AwaitTxConfirmation":
-						// the Bitcoin window check of the pay loop fails with an empty error text
+					case windowClosed && (prev == "ValidateTxAndPayClaimInvoice" || prev == "AwaitTxConfirmation"):
 						cause = "window_closed"
 					default:
-						cause = "other"
+						cause = "no_apparent_reason"
 					}
 				}
 				break
